@@ -1,5 +1,5 @@
 From Coq Require Import List NArith Bool.
-From LTV.C12 Require Import Model ProofsA ProofsB ProofsC ProofsD ProofsE ProofsF ProofsG.
+From LTV.C12 Require Import Model ProofsA ProofsB ProofsC ProofsD ProofsE ProofsF ProofsG ProofsH.
 Import ListNotations.
 Local Open Scope N_scope.
 
@@ -182,3 +182,20 @@ Theorem slave_tick_reactivation :
        minc (s_tl s) <= qq + unalloc (s_tl s) + uu (s_tl s) -> In id acts).
 Proof. exact ProofsE.slave_rq_spec. Qed.
 Print Assumptions slave_tick_reactivation.
+
+(* no_internal_error at full strength (positive form of the former no_internal_error_refuted): all
+   op lists at the ThrottleInternal level (root + slaves, enable/disable through set_max_rate,
+   ticks, create_slave, every consumer-side call). The carved-out input class (rate_quietb) is
+   exactly Rate::insert's own argument range: <= 2^28 bytes reported to a list in one call or
+   collected from one slave by one tick, <= 2^40 accumulated in a list's rate window. Consumers
+   report at most one chunk per call; for the enabling set_max_rate nothing is asked of the slaves'
+   uncollected counters (that is the 36e16d0 repair). *)
+Theorem no_internal_error :
+  forall ops x, sinv x -> valid_opsb x ops = true -> rate_quietb x ops = true -> snd (run x ops) = None.
+Proof. exact ProofsH.no_internal_error. Qed.
+Print Assumptions no_internal_error.
+
+Theorem no_internal_error_covers_old_witness :
+  valid_opsb init witness_rate_added = true /\ rate_quietb init witness_rate_added = true.
+Proof. exact ProofsH.no_internal_error_covers_old_witness. Qed.
+Print Assumptions no_internal_error_covers_old_witness.
